@@ -75,7 +75,7 @@ func main() {
 			for _, o := range u.Enc.obls {
 				ok := o.Result == "unsat"
 				if o.IsCover {
-					ok = o.Result == "sat"
+					ok = o.Result != "unsat"
 				}
 				if o.Kind == "cover.soft" {
 					if !ok && *verbose {
@@ -107,6 +107,22 @@ func main() {
 		}
 		if bad > 0 {
 			os.Exit(1)
+		}
+	case "list":
+		p, err := loadProgram(*repo, *verif)
+		if err != nil {
+			fmt.Fprintln(os.Stderr, "load:", err)
+			os.Exit(2)
+		}
+		var ks []string
+		for k := range p.fnByKey {
+			if len(pos) == 0 || strings.Contains(k, pos[0]) {
+				ks = append(ks, k)
+			}
+		}
+		sort.Strings(ks)
+		for _, k := range ks {
+			fmt.Println(k)
 		}
 	case "check":
 		if len(pos) != 1 {
